@@ -909,7 +909,7 @@ def _extreme(vals, which, nan):
                 best = v
         return best
     cache = c.caches.setdefault("extreme", {})
-    k = (which, tuple(v.p.key() for v in vals))
+    k = (which, tuple(sorted((v.p.key() for v in vals), key=repr)))  # max/min are symmetric in their arguments
     if k not in cache:
         xs = [c.eval_or_none(v.p) for v in vals]
         if any(z is None for z in xs):
